@@ -776,8 +776,56 @@ fn main() {
         }
         run.notes.push(format!("pair keys over flop, turn, river: {total}"));
         dist.check(&mut run);
-        for s in 1..4usize {
-            let mut d = Distinct::new(["", "pair-key(flop)", "pair-key(turn)", "pair-key(river)"][s]);
+        // the preflop layer keeps its 169 classes as centroids and Layer::metric stores their pairwise
+        // distances under the same keys: every pair goes through the model too (within-street clause)
+        {
+            let v = &all_abs[0];
+            let mut n0 = 0u64;
+            for i in 0..v.len() {
+                for j in (i + 1)..v.len() {
+                    run.evaluations += 1;
+                    let (va, vb) = (v[i], v[j]);
+                    let (na, nb) = match catch(move || (u64::from(va), u64::from(vb))) { Some(x) => x, None => continue };
+                    let enc = cv(&mut run, &|| format!("i64::from(Pair::from(({na}, {nb}))) in both orders and Pair::from(i64)"), || {
+                        let key = i64::from(Pair::from((&va, &vb)));
+                        (key, i64::from(Pair::from((&vb, &va))), i64::from(Pair::from(key)))
+                    });
+                    let (key, key2, keyback) = match enc { Some(x) => x, None => { run.line(&format!("pair {na} {nb}"), "panic"); continue; } };
+                    n0 += 1;
+                    run.line(&format!("pair {na} {nb}"), &format!("{} {} {}", key as u64, key, keyback as u64));
+                    run.spec_checked += 1;
+                    if key != key2 { run.fail("pair-key-not-symmetric", &format!("pair {na} {nb}"), &format!("{key}"), &format!("{key2}")); }
+                    run.distinct(&("pair0", key));
+                    run.count("pair-street=0");
+                }
+            }
+            run.notes.push(format!("pair keys inside the preflop layer: {n0}"));
+        }
+        // all four streets together (Metric::sources uploads the four files into one table keyed by xor):
+        // the list of keys shared by more than one pair, from the real Pair::from, against the model's list.
+        // Outside the property's text ("across the three learned streets"): reported as a note, never a failure.
+        {
+            let mut by_key: std::collections::BTreeMap<u64, Vec<(usize, usize, usize)>> = Default::default();
+            for s in 0..4usize {
+                let v = &all_abs[s];
+                for i in 0..v.len() { for j in (i + 1)..v.len() {
+                    let (x, y) = (v[i], v[j]);
+                    if let Some(k) = catch(move || i64::from(Pair::from((&x, &y)))) { by_key.entry(k as u64).or_default().push((s, i, j)); }
+                } }
+            }
+            let mut parts = vec![];
+            for (k, v) in by_key.iter() {
+                if v.len() > 1 {
+                    let mut v = v.clone(); v.sort();
+                    parts.push(format!("{k}={}", v.iter().map(|(s, i, j)| format!("{s}.{i}.{j}")).collect::<Vec<_>>().join(",")));
+                }
+            }
+            let out = if parts.is_empty() { "none".to_string() } else { parts.join(";") };
+            run.line("paircross", &out);
+            run.notes.push(format!("pair keys shared by two pairs over all FOUR streets (outside the property; preflop vs turn/river): {out}"));
+        }
+        for s in 0..4usize {
+            let mut d = Distinct::new(["pair-key(preflop)", "pair-key(flop)", "pair-key(turn)", "pair-key(river)"][s]);
             let v = &all_abs[s];
             for i in 0..v.len() { for j in (i + 1)..v.len() { let (x, y) = (v[i], v[j]); if let Some(k) = catch(move || i64::from(Pair::from((&x, &y)))) { d.push(k as i128); } } }
             d.check(&mut run);
@@ -852,7 +900,7 @@ fn main() {
 
     run.exhaustive = deep;
     run.rule = format!(
-        "exhaustive: 52 cards (u8, u32); 1,326 pre-flop observations{}; fold, check, 4 x 65,536 chip actions (all i16), all draws of 0..3 cards (1+52+1,326+22,100); 15 edges and all 256 u8 codes, all 65,536 raises with 8-bit odds through u64; all paths of <= 2 edges; all 542 abstractions; all 23,474 within-street pairs of flop, turn, river. sampled: {} flop/turn/river observations each, {} paths of <= 16 edges, {} hands, {} buckets, plus decode of codes outside the image (panic fidelity); decode SEQUENCES on one thread and on 6 threads ({} families each of: a turn then every river child, children before parents, rivers differing in the lowest board card only, flop parents, other pockets on the same board, every code twice, interleaved with Street::from(i64) / Isomorphism::from(i64) and with action, path, abstraction and edge decodes in neighbouring-value order). distinct = distinct (type, value) cases that went through the model line-diff",
+        "exhaustive: 52 cards (u8, u32); 1,326 pre-flop observations{}; fold, check, 4 x 65,536 chip actions (all i16), all draws of 0..3 cards (1+52+1,326+22,100); 15 edges and all 256 u8 codes, all 65,536 raises with 8-bit odds through u64; all paths of <= 2 edges; all 542 abstractions; all 23,474 within-street pairs of flop, turn, river and all 14,196 pairs inside the preflop layer. sampled: {} flop/turn/river observations each, {} paths of <= 16 edges, {} hands, {} buckets, plus decode of codes outside the image (panic fidelity); decode SEQUENCES on one thread and on 6 threads ({} families each of: a turn then every river child, children before parents, rivers differing in the lowest board card only, flop parents, other pockets on the same board, every code twice, interleaved with Street::from(i64) / Isomorphism::from(i64) and with action, path, abstraction and edge decodes in neighbouring-value order). distinct = distinct (type, value) cases that went through the model line-diff",
         if deep { "; all 25,989,600 flop observations (oracle; every 16th as a model line)" } else { "" },
         if deep { 300_000 } else { 40_000 }, if deep { 300_000 } else { 50_000 }, nh, if deep { 100_000 } else { 20_000 }, if deep { 1500 } else { 120 });
     run.finish();
